@@ -59,6 +59,8 @@ func New(config ...Config) fiber.Handler {
 	trustedSubOrigins := []subdomain{}
 
 	for _, origin := range cfg.TrustedOrigins {
+		// trim first: the wildcard position must be an index into the trimmed text
+		origin = utils.Trim(origin, ' ')
 		if i := strings.Index(origin, "://*."); i != -1 {
 			trimmedOrigin := utils.Trim(origin[:i+3]+origin[i+4:], ' ')
 			isValid, normalizedOrigin := normalizeOrigin(trimmedOrigin)
